@@ -200,10 +200,13 @@ func (m *Monitor) checkDot(i int, op *Op, rec *OpRec, verr error) {
 		switch {
 		case verr == nil, info.selfFail:
 			want = false
-		case info.hadDec || info.verdict == VCycle:
+		case info.verdict == VCycle:
 			judge = false
 		case info.failedFn >= 0:
+			// a constructor or decorator failed: the chain holds the failed value, decorators or not
 			want = true
+		case info.hadDec:
+			judge = false
 		case info.verdict == VDig && info.av == avNo:
 			want = true
 		default:
@@ -301,10 +304,23 @@ func (m *Monitor) checkDotPlain(pd *parsedDot) {
 	}
 }
 
-// demandEdges: registrations a function may ask for (any non-soft parameter), as seen from its scope.
+// demandEdges: registrations a function may ask for (any non-soft parameter), as seen from its scope, and
+// whatever the decorators of those keys ask for, as seen from theirs (decorators are not drawn: their
+// dependencies count as the consumer's).
 func (m *Monitor) demandEdges(n node) []*Reg {
+	return m.demandEdgesThrough(n, map[*Dec]bool{})
+}
+
+func (m *Monitor) demandEdgesThrough(n node, seen map[*Dec]bool) []*Reg {
 	var out []*Reg
+	self, _ := m.role[n.f.ID].(*Dec)
 	for _, p := range n.f.Params {
+		for _, d := range m.decsOf(n.s, p.K, self) {
+			if !seen[d] {
+				seen[d] = true
+				out = append(out, m.demandEdgesThrough(node{f: d.F, s: d.S}, seen)...)
+			}
+		}
 		if p.K.Group != "" {
 			if !p.Soft {
 				out = append(out, m.feeders(n.s, p.K)...)
@@ -329,9 +345,15 @@ func (m *Monitor) missingKeysOf(n node) []string {
 }
 
 func (m *Monitor) checkDotFailure(pd *parsedDot, info *invInfo, verr error) {
-	if info.hadDec || info.verdict == VCycle {
+	// Decorators are not drawn. A failing constructor below (or beside) a healthy decorator is judged, with the
+	// decorators' own dependencies followed as if they were the consumer's (demandEdges); a failing decorator, and
+	// a missing type with a decorator in the closure (whose missing dependency it may be), are outside the claim.
+	if info.verdict == VCycle || (info.hadDec && info.failedFn < 0) {
 		m.stats["dot.failure-excluded"]++
 		return
+	}
+	if info.hadDec {
+		m.stats["dot.failure-with-decorators"]++
 	}
 	// A cluster is matched to its registration by the function's name and the results it holds. Reflect-made
 	// functions all share one name (and one ID, as registrations of the same function in several scopes do):
@@ -565,6 +587,13 @@ func (m *Monitor) checkDotFailure(pd *parsedDot, info *invInfo, verr error) {
 	for _, o := range orange {
 		for _, id := range regResultIDs(o) {
 			wantOrange[id] = true
+		}
+	}
+	// a key whose decorator could not run because something below it failed is orange as well, although its
+	// constructor did not fail and is pruned
+	for _, d := range m.decs {
+		for k := range d.prod {
+			wantOrange[dotResultID(k)] = true
 		}
 	}
 	for _, id := range orangeNodes {
